@@ -11,32 +11,6 @@ func init() {
 	vfHarnesses["VerifH_params_wkt"] = VerifH_params_wkt
 }
 
-func schemaWKT() *fakeMD {
-	w := func(field, tn string) *fakeFD {
-		return &fakeFD{name: field, kind: protoreflect.MessageKind, msg: vfWKTMD(tn)}
-	}
-	return newFakeMD("vf.WReq",
-		w("sv", "StringValue"), w("byv", "BytesValue"), w("bv", "BoolValue"),
-		w("i32", "Int32Value"), w("i64", "Int64Value"), w("u32", "UInt32Value"), w("u64", "UInt64Value"),
-		w("fm", "FieldMask"), w("du", "Duration"), w("ts", "Timestamp"),
-	)
-}
-
-// vfWKTGet reads sub-field sub of the well-known message stored in field of msg through the
-// protoreflect interface (natively a real generated message, under the engine the fake view).
-func vfWKTGet(msg *fakeMsg, field, sub string) (protoreflect.Value, protoreflect.FieldDescriptor, bool) {
-	fd := msg.md.fields.ByName(protoreflect.Name(field))
-	if fd == nil || !msg.Has(fd) {
-		return protoreflect.Value{}, nil, false
-	}
-	wm := msg.Get(fd).Message()
-	sfd := wm.Descriptor().Fields().ByName(protoreflect.Name(sub))
-	if sfd == nil {
-		return protoreflect.Value{}, nil, false
-	}
-	return wm.Get(sfd), sfd, true
-}
-
 type vfWKTCase struct {
 	field, text string
 	ok          bool  // must be accepted (true) / rejected (false)
